@@ -594,10 +594,12 @@ def run_shard(spec) -> ShardResult:
                     nt, labs = classify(case)
                     res.note_case(to_json(case), nt, labs)
                     # ... and with every ninth residue an abasic site (backbone and sugar under the name 3DR, letter '?')
-                    case = {"file": f, "own_annotation": True, "find_gaps": fg, "via_adapter": via, "relabel": {"abasic": list(range(4, 400, 9))}}
-                    check_case(PROP_ID, oracle, case, res, to_json=to_json)
-                    nt, labs = classify(case)
-                    res.note_case(to_json(case), nt, labs + ["own-annotation-with-abasic-sites"], sample_cap=1)
+                    if len(corpus.structure(f).residues) <= 200:
+                        # (larger structures left out: with forty abasic sites their enumeration of all notations runs for minutes)
+                        case = {"file": f, "own_annotation": True, "find_gaps": fg, "via_adapter": via, "relabel": {"abasic": list(range(4, 400, 9))}}
+                        check_case(PROP_ID, oracle, case, res, to_json=to_json)
+                        nt, labs = classify(case)
+                        res.note_case(to_json(case), nt, labs + ["own-annotation-with-abasic-sites"], sample_cap=1)
     res.exhaustive = False
     return res
 
